@@ -6,9 +6,16 @@
 //! assume: the operations the source `expect`s never to fail do not fail: a SHA256 output is a valid scalar, multiplying a key by a hash succeeds, and the final addition is not the point at infinity (probability about 2^-128 each; the source says the same in its expect messages)
 //! trusted: env (signer): InMemorySigner / ChannelTransactionParameters / ChannelPublicKeys are field skeletons of the real structs; DelayedPaymentKey::from_basepoint, get_revokeable_redeemscript, SighashCache::p2wsh_signature_hash and sign_with_aux_rand are external_body with uninterpreted results (delayed_key_of, revokeable_script, sighash_of, ecdsa_sign); R8: `hash_to_message!(&X.unwrap()[..])` (a macro over Message::from_digest_slice) is written `hash_to_message!(X.unwrap().as_digest())` and the unit defines the macro as the function to_message (the message is the sighash); the message of `assert!(c, "msg")` is dropped by the extractor (the assertion stays as an obligation); R4: module prefixes chan_utils:: / sighash:: stripped; R17: the parameters the contract names are bound by position (a parameter renamed in the source is alpha-renamed back); the trait methods are verified as inherent methods of InMemorySigner; sign_justice_revoked_htlc: HtlcKey::from_basepoint and get_htlc_redeemscript_with_explicit_keys external_body (uninterpreted derived_key / htlc_script)
 //! assume: the signer's revocation_base_key is the secret of the holder_pubkeys.revocation_basepoint in the channel parameters it is given (how channel keys are set up)
+//! trusted: assume_specification for core::cmp::max / core::cmp::min (std definitions): present in every unit so that a change that introduces them is verified instead of being rejected by the tool
 use vstd::prelude::*;
 macro_rules! hash_to_message { ($slice: expr) => { to_message($slice) } }
 verus! {
+use vstd::std_specs::cmp::*;
+use core::cmp;
+pub assume_specification<T: core::cmp::Ord>[core::cmp::max::<T>](a: T, b: T) -> (r: T)
+    ensures T::obeys_cmp_spec() ==> r == (if b.cmp_spec(&a) == core::cmp::Ordering::Less { a } else { b });
+pub assume_specification<T: core::cmp::Ord>[core::cmp::min::<T>](a: T, b: T) -> (r: T)
+    ensures T::obeys_cmp_spec() ==> r == (if b.cmp_spec(&a) == core::cmp::Ordering::Less { b } else { a });
 pub struct Secp256k1 {}
 pub struct SecretKey { pub id: u64 }
 #[derive(Clone, Copy)] pub struct PublicKey { pub id: u64 }
